@@ -83,11 +83,32 @@ theorem splitOf_deployInto (c : Core) (v : Svc) (sl : Slot) (ts : List Bytes) (e
   · exact h
   · exact splitOf_setSvc c.svcs _ n s h (by rw [withLb_name, withLb_split]; exact hv)
 
+
+theorem find_filter_ne (l : List Svc) (m n : Bytes) (h : m ≠ n) :
+    (l.filter (·.name ≠ m)).find? (·.name = n) = l.find? (·.name = n) := by
+  induction l with
+  | nil => rfl
+  | cons x xs ih =>
+    by_cases hx : x.name = m
+    · simp only [List.filter_cons, hx, ne_eq, not_true_eq_false, decide_false, List.find?_cons, h]
+      simpa using ih
+    · simp only [List.filter_cons, ne_eq, hx, not_false_eq_true, decide_true, if_true, List.find?_cons]
+      by_cases hxn : x.name = n
+      · simp [hxn]
+      · simp only [hxn, decide_false]; simpa using ih
+
+theorem splitOf_removeSvc (l : List Svc) (m n : Bytes) (h : m ≠ n) :
+    splitOf (removeSvc l m) n = splitOf l n := by
+  unfold removeSvc
+  rw [splitOf_syncTLS]
+  unfold splitOf
+  rw [find_filter_ne l m n h]
+
 /-- which commands are allowed to change the split of service `n` -/
 def touchesSplit (n : Bytes) : Cmd → Bool
   | .rolloutSet m _ _ => m = n
   | .rolloutStop m => m = n
-  | .remove _ => true
+  | .remove m => m = n
   | .restart _ => true
   | _ => false
 
@@ -171,6 +192,11 @@ theorem split_survives (c : Core) (cmd : Cmd) (n : Bytes) (s : Option Split)
       | some p =>
         show splitOf (updSvc c m _).svcs n = some s
         exact Eq.trans (by apply splitOf_updSvc; exact fun _ => rfl; exact Or.inr fun _ => rfl) h
-  | remove m => simp [touchesSplit] at hc
+  | remove m =>
+    have hm : m ≠ n := by simpa [touchesSplit] using hc
+    simp only [stepCore, withSvc]
+    cases hg : c.get m with
+    | none => exact h
+    | some v => exact (splitOf_removeSvc c.svcs m n hm).trans h
   | restart g => simp [touchesSplit] at hc
 end KamalProxy
